@@ -72,6 +72,7 @@ type FuncContract struct {
 	Used          bool
 	CallPreserves map[string][]Clause // callee short name -> predicates preserved by the function values passed to it
 	SafetyProps    []string
+	LoopStep       map[int][]Clause
 	AssumeRequires map[string]string  // callee short name -> assumption name
 	AssumeKinds    map[string]string  // obligation kind -> assumption name
 }
@@ -106,12 +107,22 @@ type Lemma struct {
 	Where string
 }
 
+// Classified: the complete field list of a struct type (continuation lines allowed).
+type Classified struct {
+	Type   string
+	Fields []string
+	Props  []string
+	Where  string
+}
+
 type Contracts struct {
 	funcs  map[string]*FuncContract
 	specs  map[string]*SpecFunc
 	preds  map[string]*Pred
 	axioms []*Axiom
 	lemmas []*Lemma
+	classified []*Classified
+	sinks      []*SinkSpec
 	files  []string
 }
 
@@ -196,6 +207,26 @@ func (cs *Contracts) loadFile(path string, pkgName string, commentPrefix bool) e
 				cs.funcs[name] = cur
 			}
 			cur.Props = append(cur.Props, props...)
+		case "sinks":
+			sp, err := parseSinkSpec(rest, props, where)
+			if err != nil {
+				return perr(err)
+			}
+			cs.sinks = append(cs.sinks, sp)
+			cur = nil
+		case "classified":
+			// classified[Cnn] <pkg.Type>: f1 f2 ... -- every field of the struct, each one accounted for
+			// by the contracts; a field added to (or removed from) the struct fails the check
+			i := strings.Index(rest, ":")
+			if i < 0 {
+				return perr(fmt.Errorf("expected: classified <type>: <fields>"))
+			}
+			tn := strings.TrimSpace(rest[:i])
+			if pkgName != "" && !strings.Contains(tn, ".") {
+				tn = pkgName + "." + tn
+			}
+			cs.classified = append(cs.classified, &Classified{Type: tn, Fields: strings.Fields(strings.ReplaceAll(rest[i+1:], ",", " ")), Props: props, Where: where})
+			cur = nil
 		case "spec":
 			sf, err := parseSpecDecl(rest)
 			if err != nil {
@@ -295,14 +326,15 @@ func (cs *Contracts) loadFile(path string, pkgName string, commentPrefix bool) e
 			case "loop", "assert":
 				f := strings.Fields(rest)
 				if kw == "loop" {
-					if len(f) < 3 || f[1] != "invariant" {
-						return perr(fmt.Errorf("expected: loop <n> invariant <expr>"))
+					if len(f) < 3 || (f[1] != "invariant" && f[1] != "step") {
+						return perr(fmt.Errorf("expected: loop <n> invariant|step <expr>"))
 					}
 					n, err := strconv.Atoi(f[0])
 					if err != nil {
 						return perr(err)
 					}
-					text := strings.TrimSpace(strings.TrimPrefix(strings.TrimSpace(strings.TrimPrefix(rest, f[0])), "invariant"))
+					isStep := f[1] == "step"
+					text := strings.TrimSpace(strings.TrimPrefix(strings.TrimSpace(strings.TrimPrefix(rest, f[0])), f[1]))
 					// allow props after "invariant"
 					if strings.HasPrefix(text, "[") {
 						j := strings.Index(text, "]")
@@ -316,7 +348,16 @@ func (cs *Contracts) loadFile(path string, pkgName string, commentPrefix bool) e
 					if err != nil {
 						return perr(err)
 					}
-					cur.LoopInv[n] = append(cur.LoopInv[n], Clause{Expr: e, Props: props, Text: text, Where: where})
+					if isStep {
+						// a step clause relates the state at the end of one iteration to the state at its
+						// start (iter(...)); it is proved on every back edge and never assumed
+						if cur.LoopStep == nil {
+							cur.LoopStep = map[int][]Clause{}
+						}
+						cur.LoopStep[n] = append(cur.LoopStep[n], Clause{Expr: e, Props: props, Text: text, Where: where})
+					} else {
+						cur.LoopInv[n] = append(cur.LoopInv[n], Clause{Expr: e, Props: props, Text: text, Where: where})
+					}
 				}
 			case "call":
 				f := strings.Fields(rest)
